@@ -328,6 +328,62 @@ func configs() []*config {
 			probes: []string{"", "a"},
 		},
 		{
+			// In-flight deduplication DURING a size class retry: the shared
+			// action T (selector index 0: size class 1) is handed to W:1,
+			// which may report a failure; the task is then retried on size
+			// class 4 - queued there while W:3 is absent or busy - and
+			// further requests for T from invocations I1/I2 join it. The
+			// current attempt selected size class 4: every operation of the
+			// task must sit in that queue, only W:3 may receive it; W:1/W:2
+			// (size class 1) keep asking for work meanwhile. One large
+			// worker only, so that the hand-over of a task that is part of
+			// several invocations has a single candidate (see c04-handover-multi
+			// for the choice among several).
+			name: "c05-sizeclass-dedup", props: []string{"C05"}, fail: true,
+			predeclared: []pqDecl{{prefix: "", platform: "P1", sizeClasses: []uint32{1, 4}}},
+			workers:     []workerDecl{w(1, "", "P1", 1), w(2, "", "P1", 1), w(3, "", "P1", 4)},
+			execs: []execDecl{
+				{name: "T.I1", platform: "P1", corr: "I1", dur: 1, scIdx: 0, share: "T"},
+				{name: "T.I2", platform: "P1", corr: "I2", dur: 1, scIdx: 0, share: "T"},
+				// A second shared action whose FIRST attempt already
+				// selects size class 4 (selector index 1).
+				{name: "U.I1", platform: "P1", corr: "I1", dur: 1, scIdx: 1, share: "U"},
+				{name: "U.I2", platform: "P1", corr: "I2", dur: 1, scIdx: 1, share: "U"},
+			},
+			prefix: []string{"W:1", "T.I1"},
+			depth:  map[string]int{"quick": 5, "thorough": 7}, shards: 4,
+			probes: []string{""},
+		},
+		{
+			// Platform rewriting: DemultiplexingActionRouter (keyed on the
+			// Action's platform) sends every request for platform P2 to a
+			// SimpleActionRouter with StaticKeyExtractor(P1): the request
+			// must be queued in the P1 queue with the longest prefix of ITS
+			// OWN instance name (a, a/b or x), never in the P2 queue and
+			// never under the instance name of an earlier request; requests
+			// for P1 are routed as they are. Instance name "" has no queue:
+			// rejected, rewritten or not.
+			name: "c05-rewrite", props: []string{"C05"},
+			rewrite: map[string]string{"P2": "P1"},
+			predeclared: []pqDecl{
+				{prefix: "a", platform: "P1", sizeClasses: []uint32{0}},
+				{prefix: "a/b", platform: "P1", sizeClasses: []uint32{0}},
+				{prefix: "x", platform: "P1", sizeClasses: []uint32{0}},
+				{prefix: "a", platform: "P2", sizeClasses: []uint32{0}},
+			},
+			workers: []workerDecl{w(1, "a", "P1", 0), w(2, "a/b", "P1", 0), w(3, "x", "P1", 0), w(4, "a", "P2", 0)},
+			execs: []execDecl{
+				{name: "x:a/c/P2", inst: "a/c", platform: "P2", corr: "I1", dur: 1},
+				{name: "x:a/b/P2", inst: "a/b", platform: "P2", corr: "I1", dur: 1},
+				{name: "x:x/y/P2", inst: "x/y", platform: "P2", corr: "I1", dur: 1},
+				{name: "x:a/P1", inst: "a", platform: "P1", corr: "I1", dur: 1},
+				{name: "x:/P2", inst: "", platform: "P2", corr: "I1", dur: 1},
+			},
+			qt: 1, maxTicks: 1,
+			depth: map[string]int{"quick": 4, "thorough": 6}, shards: 4,
+			probes: []string{"", "a", "a/b", "a/c", "x/y"},
+		},
+		{
 			// Drains and terminating workers.
 			name: "c05-drain", props: []string{"C05", "C04"},
 			inspect:     []string{"inspect"},
